@@ -176,6 +176,9 @@ func (g *gen) chanType(name string, typs []types.Type) (types.Type, types.ChanDi
 	if !ok {
 		return nil, types.SendRecv, fmt.Errorf("%s, the argument, %s, is not of type chan of chan", name, typs[0])
 	}
+	if chanOfChanTyp.Dir() == types.SendOnly {
+		return nil, types.SendRecv, fmt.Errorf("%s, the argument, %s, is a chan of send only chan", name, typs[0])
+	}
 	elemType := chanOfChanTyp.Elem()
 	return elemType, chanTyp.Dir(), nil
 }
@@ -340,9 +343,10 @@ func (g *gen) genChan(typs []types.Type) error {
 		dirStr = "<-"
 	}
 	typStr := g.TypeString(elemTyp)
+	inStr := g.TypeString(typs[0].(*types.Chan).Elem())
 	p.P("")
 	p.P("// %s listens on all channels resulting from the input channel and sends all their results on the output channel.", name)
-	p.P("func %s(in %schan (<-chan %s)) <-chan %s {", name, dirStr, typStr, typStr)
+	p.P("func %s(in %schan (%s)) <-chan %s {", name, dirStr, inStr, typStr)
 	p.In()
 	p.P("out := make(chan %s)", typStr)
 	p.P("go func() {")
